@@ -506,6 +506,18 @@ func runC04(c *Ctx) error {
 		emit(ea, eb, fault, target)
 		emit(eb, ea, fault, target)
 		check(ea, eb, fault, target)
+		// a third, undisturbed connection between the same two routers after the disturbed one: whatever
+		// the aborted attempt left behind in the per-peer sessions, both ends complete and agree on keys
+		time.Sleep(4 * time.Millisecond)
+		e3a, e3b, _, err := connect("none", -1, c.Rng.IntN(1<<20), earlier)
+		if err != nil {
+			return err
+		}
+		c.Eval()
+		c.Count("honest-after-" + fault)
+		emit(e3a, e3b, "none", -1)
+		emit(e3b, e3a, "none", -1)
+		check(e3a, e3b, "none", -1)
 		if run < 3 {
 			c.Sample(map[string]any{"cfg": fmt.Sprint(cf), "fault": fault, "message": target, "A": ea.stage, "B": eb.stage})
 		}
